@@ -118,6 +118,21 @@ pub fn variants(tier: Tier) -> Vec<WorldSpec> {
     }
     s.matrix = Matrix::generate(6, 6, |_, _| 0);
     v.push(s);
+    // non-square matrices: more right ids than left ids and the reverse
+    let mut s = cost_spec("W-cost-matrix-8x6");
+    s.matrix = Matrix::distinct(8, 6);
+    for (i, r) in s.system.iter_mut().enumerate() {
+        r.right = 1 + (pseudo(i, 5) % 7);
+    }
+    v.push(s);
+    let mut s = cost_spec("W-cost-matrix-6x8");
+    s.matrix = Matrix::distinct(6, 8);
+    for (i, r) in s.system.iter_mut().enumerate() {
+        if r.left >= 0 {
+            r.left = 1 + (pseudo(i, 6) % 7);
+        }
+    }
+    v.push(s);
     let mut s = cost_spec("W-cost-user-layer");
     s.users.push(vec![Row::new("いう", 3, 2, -2000, P_NOUN), Row::new("あ", 1, 5, 100, P_PROPN), Row::new("ういう", 2, 2, 300, P_NOUN)]);
     s.users.push(vec![Row::new("う", 4, 4, 2500, P_NOUN), Row::new("あいう", 5, 5, -1000, P_NOUN)]);
